@@ -6,6 +6,10 @@ open Tally
 
 theorem body_m3_reporter_flush_unchanged : Facts.body_m3_reporter_flush = ["func(mets []m3thrift.Metric) []m3thrift.Metric", "if len(mets) == 0 { return mets }", "r.numBatches.Inc()", "err := r.client.EmitMetricBatchV2(m3thrift.MetricBatch{ Metrics: mets, CommonTags: r.commonTags, })", "if err != nil { r.numWriteErrors.Inc() if te, ok := err.(thrift.TTransportException); ok && te.TypeId() == thrift.INVALID_DATA { _ = r.client.Transport.Flush() } }", "for i, _ := range mets", "| mets[i].Tags = nil", "return mets[:0]"] := rfl
 
+theorem body_thriftudp__NewTMultiUDPClientTransport_unchanged : Facts.body_thriftudp__NewTMultiUDPClientTransport = ["func( destHostPorts []string, locHostPort string, ) (*TMultiUDPTransport, error)", "var transports []thrift.TTransport", "for i, _ := range destHostPorts", "| trans, err := NewTUDPClientTransport(destHostPorts[i], locHostPort)", "| if err != nil { return nil, err }", "| transports = append(transports, trans)", "return &TMultiUDPTransport{transports: transports}, nil"] := rfl
+
+theorem body_thriftudp__NewTUDPClientTransport_unchanged : Facts.body_thriftudp__NewTUDPClientTransport = ["func(destHostPort string, locHostPort string) (*TUDPTransport, error)", "destAddr, err := net.ResolveUDPAddr(\"udp\", destHostPort)", "if err != nil { return nil, thrift.NewTTransportException(thrift.NOT_OPEN, err.Error()) }", "var locAddr *net.UDPAddr", "if locHostPort != \"\" { locAddr, err = net.ResolveUDPAddr(\"udp\", locHostPort) if err != nil { return nil, thrift.NewTTransportException(thrift.NOT_OPEN, err.Error()) } }", "conn, err := net.DialUDP(destAddr.Network(), locAddr, destAddr)", "if err != nil { return nil, thrift.NewTTransportException(thrift.NOT_OPEN, err.Error()) }", "return &TUDPTransport{ addr: destAddr, conn: conn, readByteBuf: make([]byte, 1), }, nil"] := rfl
+
 theorem body_thriftudp_TMultiUDPTransport_Close_unchanged : Facts.body_thriftudp_TMultiUDPTransport_Close = ["func() error", "for _, trans := range p.transports", "| if err := trans.Close(); err != nil { return err }", "return nil"] := rfl
 
 theorem body_thriftudp_TMultiUDPTransport_Flush_unchanged : Facts.body_thriftudp_TMultiUDPTransport_Flush = ["func() error", "var firstErr error", "for _, trans := range p.transports", "| if err := trans.Flush(); err != nil && firstErr == nil { firstErr = err }", "return firstErr"] := rfl
@@ -17,6 +21,8 @@ theorem body_thriftudp_TMultiUDPTransport_Open_unchanged : Facts.body_thriftudp_
 theorem body_thriftudp_TMultiUDPTransport_Write_unchanged : Facts.body_thriftudp_TMultiUDPTransport_Write = ["func(buff []byte) (int, error)", "var ( n int firstErr error )", "for _, trans := range p.transports", "| written, err := trans.Write(buff)", "| if err != nil { if firstErr == nil { firstErr = err } continue }", "| if firstErr == nil && written > n { n = written }", "return n, firstErr"] := rfl
 
 theorem body_thriftudp_TUDPTransport_Close_unchanged : Facts.body_thriftudp_TUDPTransport_Close = ["func() error", "if closed := p.closed.Swap(true); !closed { return p.conn.Close() }", "return nil"] := rfl
+
+theorem body_thriftudp_TUDPTransport_Conn_unchanged : Facts.body_thriftudp_TUDPTransport_Conn = ["func() *net.UDPConn", "return p.conn"] := rfl
 
 theorem body_thriftudp_TUDPTransport_Flush_unchanged : Facts.body_thriftudp_TUDPTransport_Flush = ["func() error", "if !p.IsOpen() { return thrift.NewTTransportException(thrift.NOT_OPEN, \"Connection not open\") }", "if p.overflow { p.overflow = false p.writeBuf.Reset() return thrift.NewTTransportException(thrift.INVALID_DATA, \"Data does not fit within one UDP packet: message discarded\") }", "_, err := p.conn.Write(p.writeBuf.Bytes())", "p.writeBuf.Reset()", "return err"] := rfl
 
